@@ -122,18 +122,27 @@ impl DcpsDomainParticipant {
                             let mut operators = [Operator::LessThan, Operator::Equal].iter();
                             let filter = loop {
                                 if let Some(operator) = operators.next() {
-                                    if let Some((variable_name, _)) = content_filtered_topic
+                                    if let Some((variable_name, parameter)) = content_filtered_topic
                                         .filter_expression
                                         .split_once(operator.to_str())
                                     {
-                                        break Some((variable_name, operator));
+                                        break Some((variable_name, parameter, operator));
                                     }
                                 } else {
                                     break None;
                                 };
                             };
 
-                            if let Some((variable_name, comparison_function)) = filter {
+                            if let Some((variable_name, parameter, comparison_function)) = filter {
+                                // The right-hand side names the expression parameter: `%n`
+                                let Some(parameter_value) = parameter
+                                    .trim()
+                                    .strip_prefix('%')
+                                    .and_then(|n| n.parse::<usize>().ok())
+                                    .and_then(|n| content_filtered_topic.expression_parameters.get(n))
+                                else {
+                                    continue;
+                                };
                                 let Some(member_id) =
                                     data.get_member_id_by_name(variable_name.trim())
                                 else {
@@ -151,9 +160,7 @@ impl DcpsDomainParticipant {
                                         let member_value = data.get_int32_value(member_id).unwrap();
                                         if !comparison_function.compare_int32(
                                             member_value,
-                                            &content_filtered_topic.expression_parameters[0]
-                                                .parse()
-                                                .expect("valid number"),
+                                            &parameter_value.parse().expect("valid number"),
                                         ) {
                                             continue;
                                         }
@@ -175,7 +182,7 @@ impl DcpsDomainParticipant {
                                             data.get_string_value(member_id).unwrap();
                                         if !comparison_function.compare_string(
                                             member_value,
-                                            &content_filtered_topic.expression_parameters[0],
+                                            parameter_value,
                                         ) {
                                             continue;
                                         }
